@@ -138,9 +138,10 @@ func (r *recorder) WriteHeader(code int) {
 		return
 	}
 
+	// The underlying writer refuses an invalid code by panicking: the header only counts once it has been forwarded.
+	r.ResponseWriter.WriteHeader(code)
 	r.size = 0
 	r.status = code
-	r.ResponseWriter.WriteHeader(code)
 }
 
 // Write writes the data to the connection as part of an HTTP reply.
